@@ -3098,7 +3098,7 @@ Lemma undeferF_fields g ks s :
   s_ineed (undeferF g ks s) = s_ineed s /\ s_tail (undeferF g ks s) = s_tail s /\
   s_duration (undeferF g ks s) = s_duration s /\ s_chk_after (undeferF g ks s) = s_chk_after s /\
   s_detached (undeferF g ks s) = s_detached s.
-Proof. unfold undeferF. destruct (s_deferred s && _); repeat split; reflexivity. Qed.
+Proof. unfold undeferF, undeferF_with. destruct (s_deferred s && _); repeat split; reflexivity. Qed.
 
 Lemma place_rel_undefer k g ks : place_rel k g (undefer_consumers g ks).
 Proof.
